@@ -382,6 +382,19 @@ class Gen:
                 n = env.arrays[a][0]
                 return ('seq', [('assignsub', a, self.r.choice([('num', self.r.randrange(n)), self.index(env, a, True, False)]),
                                  self.int_expr(env, 1, True, False)) for _ in range(self.r.randint(3, 9))])
+            if len(warr) >= 2 and imp and depth > 0 and self.chance(0.15):
+                # A[k] := e directly followed by a read of another array at the same constant subscript
+                a, b = self.r.sample(warr, 2)
+                k = self.r.randrange(min(env.arrays[a][0], env.arrays[b][0]))
+                ks = [v for v, x in env.vals.items() if x == k]
+                ke = ('var', self.r.choice(ks)) if ks and self.chance(0.4) else ('num', k)
+                tg = [v for v in env.assign if v not in env.bools]
+                first = ('assignsub', a, ke, self.int_expr(env, 1, True, False))
+                rd = ('sub', b, ke)
+                if self.chance(0.5):
+                    rd = ('bin', self.r.choice(['+', '-']), rd, self.leaf_int(env, True))
+                second = ('assign', self.r.choice(tg), rd) if tg and self.chance(0.6) else self.sys(1, [rd, ('num', 0)])
+                return ('seq', [first, second])
             if warr and imp and self.chance(0.3):
                 a = self.r.choice(warr)
                 li, ri = self.split(True)
@@ -903,6 +916,17 @@ def directed():
     # a long sequence of array-element assignments in a recursive procedure
     S.append(('sequence-of-array-assignments', hdr + 'array m[6];\nproc w(val n) is if n = 0 then skip else { m[0] := n; m[1] := n + 1; m[2] := m[0] + m[1]; m[3] := n - 1; m[4] := m[3] + 2; m[5] := n; w(n - 1) }\n'
               'proc main() is { w(40); put(m[2] + 48, 0); exit(m[4]) }\n', [[]]))
+    # a call that occurs only inside an array subscript of a later actual
+    S.append(('call-in-subscript-of-later-actual', hdr + 'array t[5];\nfunc nxt(val i) is return i + 1\nfunc sub(val a, val b) is return a - b\n'
+              'proc show(val c, val v) is { put(c, 0); put(v + 48, 0) }\n'
+              'proc main() is { t[0] := 1; t[1] := 2; t[2] := 3; t[3] := 4; t[4] := 5; show(65, t[nxt(2)]); show(t[nxt(0)] + 65, t[nxt(nxt(1))]); exit(sub(40, t[nxt(3)])) }\n', [[]]))
+    # an element assignment directly followed by a read of ANOTHER array at the same constant subscript
+    S.append(('two-arrays-same-constant-subscript', hdr + 'val two = 2; array lo[4]; array hi[4]; var t;\n'
+              'proc main() is { hi[2] := 7; hi[1] := 3; lo[1] := 5; lo[2] := 9; t := hi[2]; put(t + 48, 0); hi[1] := 6; put(lo[1] + 48, 0); lo[two] := 1; t := hi[two] + t; exit(t) }\n', [[]]))
+    # calls of parameterless functions only: the outgoing area is the link word (and the result word)
+    S.append(('only-parameterless-function-calls', hdr + 'array a[4]; var i;\nfunc big() is return 70001 - 70000\nfunc pick() is return big() + big()\nfunc wrap() is return pick()\n'
+              'proc store() is { i := 2; a[i] := wrap(); a[i + 1] := pick() }\n'
+              'proc main() is { a[2] := 0; a[3] := 0; store(); put(a[2] + 48, 0); exit(a[3] + wrap()) }\n', [[]]))
     S.append(('exit-in-function', hdr + 'func f(val x) is { if x > 2 then exit(x + 40) else skip; return x }\nproc main() is { put(f(1) + 48, 0); put(f(7) + 48, 0) }\n', [[]]))
     return S
 
